@@ -114,6 +114,13 @@ def run(ctx):
     for pts in gen.exhaustive_small(4):
         if rng.random() < (0.25 if quick else 1.0):
             chain(ctx, pts, rng.choice(cfgs), 'exhaustive-small')
+    # n = 5, 6: the smallest sizes at which TWO retained segments with interior points compete (the greedy clause), sampled from the full scope
+    import itertools
+    for _ in range(120 if quick else 3000):
+        n5 = rng.choice([5, 6])
+        x5 = np.cumsum([0] + [rng.choice([1, 2]) for _ in range(n5 - 1)]).astype(float)
+        y5 = np.array([rng.choice([0, 1, 2, 3]) for _ in range(n5)], float)
+        chain(ctx, np.column_stack([x5, y5]), rng.choice(cfgs), 'small-scope-5-6')
     for _ in range(150 if quick else 3000):
         u = rng.random()
         if u < 0.2:
